@@ -137,7 +137,7 @@ pub fn check(c: &Case) -> Outcome {
         tolscale = tolscale.max(crate::props::c01::radau_internal_tolscale(&rv, &av, &vec![ymax; n]));
     }
     let nacc = plain.naccpt.max(1) as f64;
-    let acc_bound = 20.0 * prob.kappa() * nacc * tolscale + 64.0 * f64::EPSILON * (1.0 + ymax) * nacc.sqrt() + lmax * 8.0 * ulp(sp.x0.abs().max(sp.xend.abs()));
+    let acc_bound = crate::props::c01::C_BOUND * prob.kappa() * nacc * tolscale + 64.0 * f64::EPSILON * (1.0 + ymax) * nacc.sqrt() + lmax * 8.0 * ulp(sp.x0.abs().max(sp.xend.abs()));
     let mut near_grid = 0usize;
     let mut dups = 0usize;
     for (i, t) in got_t.iter().enumerate() {
@@ -218,7 +218,7 @@ pub fn run(ctx: &Ctx, known: &[Known]) -> Report {
         rule: "two-phase cases: a plain dense run gives the accepted-step grid; up to 24 requested times are placed on it (a grid point, +-1e-13 / 5e-13 / 2e-12 / 1e-9 beside one, mid-step, span fractions, x0, xend, duplicates by coincidence of anchors), sorted in the direction of integration; variants with 1..3 event functions (terminal or not) and with a step budget; six methods, both directions; every case runs with dense_output on and off. Oracle: (a) bitwise equality with t_eval under Success, (b) value = Solution::sol of the dense twin (bit-identical away from step ends), (c) accuracy bound against the exact solution for samples in steps with h*rate <= 1, (d) completeness / no overshoot on early stop with the terminal point as the only extra entry, (e) independence of dense_output. Non-trivial = a requested time within 1e-9 of an interior step end, or a duplicate, or an early stop. Distinct = distinct canonical JSON.".into(),
         assumptions: vec![
             "requested times within 2e-12 (twice the handler's documented resolution) of a step end may carry the stored state or the neighbouring segment's value: compared with max|f|*4e-12 slack".into(),
-            "accuracy bound C=20 * kappa * naccpt * tolscale as in C01".into(),
+            "accuracy bound C * kappa * naccpt * tolscale with the constant of C01".into(),
         ],
         min_nontrivial_frac: 0.5,
         stats,
